@@ -64,7 +64,7 @@ def snap(x):
     if x != 0.0 and abs(x) < 1.0:
         r = 1.0 / x
         n = round(r)
-        if n != 0 and abs(r - n) <= 1e-13 * abs(r) and abs(n) < 10 ** 15:
+        if n != 0 and abs(r - n) <= 1e-13 * abs(r) and abs(n) < 10 ** 18:
             return Fraction(1, n)
     if abs(x) >= 1.0:
         n = round(x)
